@@ -572,9 +572,12 @@ class Ex(object):
             a, b = tm.evalf(list(cond.a), {}, mp)
         except Exception:
             return None
-        if abs(a - b) < mp.mpf('1e-30'):
-            return None
-        return bool(a < b) if cond.op in ('lt', 'le') else False
+        try:
+            if not (mp.isfinite(a) and mp.isfinite(b)) or abs(a - b) < mp.mpf('1e-30'):
+                return None
+            return bool(a < b) if cond.op in ('lt', 'le') else False
+        except TypeError:
+            return None          # complex or otherwise unordered values (root/log of a negative constant): the branch stays symbolic
 
     def _implied(self, cond):
         """cheap syntactic implication from the path condition (integer equalities / orderings with constants)"""
@@ -784,7 +787,16 @@ class Ex(object):
                 if op == 'unreachable':
                     raise ExecError('unreachable executed in %s' % f['name'])
                 if op == 'invoke':
-                    r = self.do_call(ins, mod, fr)
+                    try:
+                        r = self.do_call(ins, mod, fr)
+                    except Terminal as t_:
+                        # an exception leaving the callee unwinds into this invoke's landing pad: when that pad enforces an exception
+                        # specification (throw() / noexcept: filter clause -> __cxa_call_unexpected, or __clang_call_terminate) the
+                        # process is terminated instead of the exception reaching the caller
+                        if t_.kind == 'throw' and self.pad_terminates(f, mod, ins['unwind']):
+                            self.st.event('terminate', f['name'], t_.val)
+                            raise Terminal('terminate', ('exception specification of %s' % f['name'], t_.val))
+                        raise
                     if ins['t'] != 'void':
                         fr.vals[ins['id']] = r
                     prev, bi = bi, ins['normal']
@@ -796,6 +808,27 @@ class Ex(object):
                     fr.vals[ins['id']] = r
             else:
                 raise ExecError('block without terminator')
+
+    def pad_terminates(self, f, mod, bi):
+        """does the landing pad block bi (following unconditional branches) end in std::terminate / std::unexpected?"""
+        seen = set()
+        while bi is not None and bi not in seen and len(seen) < 8:
+            seen.add(bi)
+            nxt = None
+            for ins in f['blocks'][bi]:
+                if ins['op'] in ('call', 'invoke'):
+                    try:
+                        cal = self.prog.resolve_fn(mod, ins['callee']) if 'callee' in ins else ''
+                    except Exception:
+                        cal = str(ins.get('callee'))
+                    if '__cxa_call_unexpected' in cal or '__clang_call_terminate' in cal or 'terminate' in cal:
+                        return True
+                if ins['op'] == 'br' and not ins.get('cond') and 'dest' in ins:
+                    nxt = ins['dest']
+                if ins['op'] == 'resume':
+                    return False
+            bi = nxt
+        return False
 
     def as_bool(self, c):
         if isinstance(c, T):
